@@ -600,7 +600,7 @@ func c12One(o *out, text string, sch c12Schema, tag string) {
 }
 
 // ---- generation ----
-var c12FieldNames = []string{"v1", "v2", "v10", "value", "usage", "host", "region", "mean", "mean_v1", "A", "a_b", "é", "count_v1"}
+var c12FieldNames = []string{"v1", "v2", "v10", "value", "usage", "host", "region", "mean", "mean_v1", "A", "a_b", "é", "count_v1", "load avg", "float", "x:y"}
 var c12TagNames = []string{"host", "region", "dc", "v1", "é", "hostname", "value"}
 var c12Types = []string{"float", "integer", "unsigned", "string", "boolean"}
 var c12OddTypes = []string{"time", "duration", "tag", "field", "unknown"}
@@ -645,7 +645,11 @@ var c12FieldExprs = []string{"*", "*", "*::field", "*::tag", "/v/", "/^v1/", "/.
 	"mean(*)", "mean(/v/)", "count(*)", "count(/./)", "max(*)", "min(/^v/)", "first(*)", "sum(*) AS s", "distinct(*)", "count(distinct(*))", "percentile(*, 90)", "holt_winters(mean(*), 2, 3)",
 	"holt_winters_with_fit(max(/v/), 2, 3)", "derivative(mean(*), 1s)", "mean(*::field)", "mean(*::tag)", "top(*, 2)", "top(v1, host, 2)", "top(v1, *, 2)", "mean(v1)", "mean(host)", "f()", "mean(f())", "mean(f(*))",
 	"v1 + v2", "v1 + host", "v1 * 2", "2u + v1", "v1 + 2u", "v1 + *", "v1 + /v/", "mean(*) + 1", "(*)", "(v1)", "(v1 + v2)", "mean((*))", "mode(*)", "sample(*, 3)", "elapsed(*)", "moving_average(mean(/v1/), 2)",
-	"mean(mean_v1)", "A", "a_b", "\"é\"", "v1 AS host", "* AS x", "v10 + value", "usage / v2", "v1 AND value", "v1 = 'x'", "1", "'s'", "time"}
+	"mean(mean_v1)", "A", "a_b", "\"é\"", "v1 AS host", "* AS x", "v10 + value", "usage / v2", "v1 AND value", "v1 = 'x'", "1", "'s'", "time",
+	// a regex in a call is matched against the NAME of a column, as it is as a field and as a dimension: anchored at
+	// either end, on names that need quotes, and never against a type word or the '::' of the printed reference
+	"mean(/1$/)", "max(/^v1$/)", "count(/^v/)", "sum(/e$/)", "min(/^load/)", "count(/float|integer|boolean|string/)", "max(/:/)", "mean(/^\"/)", "derivative(max(/^v[12]$/))", "count(/avg$/)", "first(/ /)",
+	"/1$/", "/^load/", "/avg$/", "/ /", "/:/"}
 var c12Dims = []string{"", "", "", "host", "region", "*", "*", "/h/", "/^h/", "/./", "/nomatch/", "time(1m)", "time(1m), host", "host, time(1m)", "host, region", "time(1m), *", "region, /h/", "*, /h/", "/h/, /r/", "dc, *",
 	"v1", "nosuch", "host::tag", "\"é\"", "*::tag"}
 var c12Conds = []string{"", "", "", " WHERE v1 > 1", " WHERE host = 'a' AND v2 < 2", " WHERE value::float > 1 OR nosuch = 2", " WHERE f(v1) > region", " WHERE host::field = 'a' AND region::field = 'b' AND v1::field = 1"}
